@@ -72,7 +72,10 @@ pub fn serialize_root(
             .url
             .replace('&', "&amp;")
             .replace('<', "&lt;")
-            .replace('"', "&quot;");
+            .replace('"', "&quot;")
+            .replace('\t', "&#9;")
+            .replace('\n', "&#10;")
+            .replace('\r', "&#13;");
         xml += &format!("xmlns:{}=\"{}\" ", ext.namespace, url);
     }
     xml += "xmlns=\"http://www.astm.org/COMMIT/E57/2010-e57-v1.0\">\n";
